@@ -6,6 +6,17 @@ SLOT_KINDS = ['*', '[', '{', 'm', 'o', 's', 't+', 'r()', 'd<>', 'v', 'v||', 't~'
 ENV_SLOT_KINDS = ['*', '[', '{', 'm', 'o', 's', 'd<>', 'r()', 't+', 't~']
 
 
+VERB_ENVS = ['vcode']
+
+
+def _verb_body_parser(name):
+    from pylatexenc.latexnodes.parsers import LatexVerbatimEnvironmentContentsParser
+
+    def make(token, nodeargd, arg_parsing_state_delta):
+        return LatexVerbatimEnvironmentContentsParser(environment_name=name)
+    return make
+
+
 def custom_vocab(rng, unknown_ok=None, n_macros=12, n_envs=5, full_cover_index=None):
     """Draw a vocabulary.  With full_cover_index=i the i-th systematic signature set is used so
     that over a run every slot kind appears in first/middle/last position."""
@@ -76,6 +87,8 @@ def custom_vocab(rng, unknown_ok=None, n_macros=12, n_envs=5, full_cover_index=N
             if d.get('math'):
                 kw['body_parsing_state_delta'] = ParsingStateDeltaEnterMathMode()
             es.append(EnvironmentSpec(n, argspecs(d), **kw))
+        for n in VERB_ENVS:
+            es.append(EnvironmentSpec(n, '', make_body_parser=_verb_body_parser(n)))
         ss = [SpecialsSpec(c) for c in specials]
         if par:
             ss.append(SpecialsSpec('\n\n'))
@@ -86,4 +99,4 @@ def custom_vocab(rng, unknown_ok=None, n_macros=12, n_envs=5, full_cover_index=N
         return db
 
     return D.Vocab(macros, envs, specials=specials, math_specials=['~', '&'], unknown_ok=unknown_ok,
-                   verb=False, par_is_specials=par, make_ctx=make_ctx, name='custom')
+                   verb=False, par_is_specials=par, make_ctx=make_ctx, name='custom', verb_envs=VERB_ENVS)
